@@ -216,7 +216,7 @@ def build_sequence(spec):
     import pulser
 
     n = spec["n"]
-    coords = [(spec["spacing"] * (i % 3) + 0.3 * i, spec["spacing"] * (i // 3)) for i in range(n)]
+    coords = spec.get("coords") or [(spec["spacing"] * (i % 3) + 0.3 * i, spec["spacing"] * (i // 3)) for i in range(n)]
     reg = pulser.Register({f"q{i}": c for i, c in enumerate(coords)})
     seq = pulser.Sequence(reg, pulser.MockDevice)
     if spec["xy"]:
@@ -253,7 +253,32 @@ def gen_seq_spec(rng, small=False, late_mask=None):
             "dt": rng.choice([4, 8, 10])}
 
 
+def gen_precision_spec(rng):
+    """precision stream: generic (non-dyadic) float64 data — random positions (C6/r^6, C3/r^3), user matrices with
+    gaussian entries, cutoffs that are generic floats (some equal to an entry's magnitude)"""
+    spec = gen_seq_spec(rng, late_mask=rng.random() < 0.3)
+    n = spec["n"]
+    spec["coords"] = [(7.3 * (i % 3) + rng.uniform(-1.2, 1.2), 7.3 * (i // 3) + rng.uniform(-1.2, 1.2)) for i in range(n)]
+    spec["custom"] = rng.random() < 0.5
+    m = [[0.0] * n for _ in range(n)]
+    for i in range(n):
+        for j in range(i + 1, n):
+            m[i][j] = m[j][i] = rng.gauss(0.0, 1.0) * 10 ** rng.uniform(-2, 2)
+    spec["custom_matrix"] = m
+    r = rng.random()
+    if r < 0.3:
+        spec["cutoff"] = 0.0
+    elif r < 0.6 and n >= 2:
+        spec["cutoff"] = abs(m[0][1])                    # exactly the magnitude of an entry (must be kept)
+    else:
+        spec["cutoff"] = 10 ** rng.uniform(-3, 1.5) * 1.2345678901234567
+    spec["precision"] = True
+    return spec
+
+
 def custom_matrix(spec):
+    if spec.get("custom_matrix"):
+        return spec["custom_matrix"]
     n = spec["n"]
     m = [[0.0] * n for _ in range(n)]
     for i in range(n):
@@ -306,6 +331,23 @@ def run_pulserdata(ctx, spec):
     n = spec["n"]
     if any(srcl[i][j] != srcl[j][i] for i in range(n) for j in range(n)) or any(srcl[i][i] != 0 for i in range(n)):
         problems.append(("source-not-symmetric", "source matrix is not symmetric with zero diagonal"))
+    if not spec["xy"] and not spec["custom"]:
+        # independent of pulser's matrix: C6 / r^6 from the positions, in float64
+        import pulser as _pulser
+        c6 = float(_pulser.MockDevice.interaction_coeff)
+        pos = build_sequence(spec).register.qubits
+        ids = list(pos)
+        for i in range(n):
+            for j in range(n):
+                if i != j:
+                    d = pos[ids[i]].as_tensor() - pos[ids[j]].as_tensor()
+                    want = c6 / float(torch.linalg.norm(d)) ** 6
+                    # pulser 1.9.1 computes the distances with torch.cdist, which is only ~1e-7 accurate in float64
+                    # (measured 4e-7 on C6/r^6); this is a sanity bound, the precision tie is the bit-for-bit
+                    # comparison with pulser's own tensor below
+                    if abs(srcl[i][j] - want) > 1e-5 * abs(want):
+                        problems.append(("register-matrix-wrong",
+                                         f"register entry ({i},{j}) = {srcl[i][j]!r}, C6/r^6 = {want!r}"))
     T = float(pd.target_times[-1])
     tt = [float(x) for x in pd.target_times]
     mids = [0.5 * (a + b) for a, b in zip(tt[:-1], tt[1:])]     # emu-mps queries mid(t0,t1); both query the t_k
@@ -316,11 +358,21 @@ def run_pulserdata(ctx, spec):
     # if in_xy else 0`, masked samples are dropped on [0, end)), so the mask applies for EVERY t < slm_end, also
     # before the first global pulse starts (t < ti)
     for t in sorted(x for x in grid if 0.0 <= x <= T):
-        M = sds[0].interaction_matrix(t).tolist()
+        Mt = sds[0].interaction_matrix(t)
+        if Mt.dtype != torch.float64:
+            problems.append(("interaction-lost-precision", f"interaction_matrix({t}) has dtype {Mt.dtype}, not float64"))
+            break
+        M = Mt.tolist()
         bad = spec_oracle(M, srcl, spec["cutoff"], masked, t, float(want_end))
         if bad:
             unmasked_bad = spec_oracle(M, srcl, spec["cutoff"], set(), t, float(want_end)) is None
-            if t < want_start and masked and unmasked_bad:
+            close = all(abs(M[i][j] - (0 if (abs(srcl[i][j]) < spec["cutoff"] or (t < want_end and (i in masked or j in masked)))
+                                       else srcl[i][j])) <= 1e-5 * abs(srcl[i][j]) for i in range(n) for j in range(n))
+            if close:
+                # masking and cutoff copy entries verbatim: a difference at the 1e-7 level is a lost-precision path
+                problems.append(("interaction-lost-precision",
+                                 f"entries are copied inexactly (float32 round trip?) at t={t}: {bad}"))
+            elif t < want_start and masked and unmasked_bad:
                 problems.append(("slm-mask-not-applied-before-start",
                                  f"at t={t} < ti={want_start} (SLM window {smt}) the FULL matrix is returned although "
                                  f"atoms {sorted(masked)} are masked until {want_end}: {bad}"))
@@ -404,6 +456,18 @@ def run_backends(ctx, spec):
         ctx.count_case({"backend": name, "spec": spec, "queries": len(rec)}, True)
         if rec != expect and ok:
             ok, detail = False, f"{name}: recorded query times {rec} != model {expect} (spec {spec})"
+        # property: before the SLM mask ends masked atoms do not interact: a step that STARTS before slm_end must
+        # use the masked matrix (its query time must be < slm_end); (assumption: slm_end lies after the midpoint of
+        # the first step, where emu-mps queries the midpoint)
+        smt = list(seq._slm_mask_time)
+        slm_end = float(smt[1]) if len(smt) > 1 else 0.0
+        for k, q in enumerate(rec[:nsteps]):
+            if times[k] < slm_end and not (q < slm_end) and slm_end > 0.5 * (times[0] + times[1]):
+                ctx.violation(f"emu-{name} uses the FULL interaction matrix during step {k} = [{times[k]}, {times[k + 1]}] "
+                              f"(queried at t={q}) although the SLM mask ends only at {slm_end}: masked atoms interact "
+                              f"from t={times[k]} on",
+                              {"spec": spec, "backend": name, "finding_key": f"mask-lifted-early-{name}", "kind": "backend"})
+                break
         # property: the time used for step k lies inside the step
         for k, q in enumerate(rec[:nsteps]):
             if not (times[k] <= q <= times[k + 1]):
@@ -518,6 +582,7 @@ def run(ctx):
     specs = [s for s in corpus_cases() if s.get("kind") == "spec"]
     specs += [gen_seq_spec(rng) for _ in range(ctx.n(12, 150))]
     specs += [gen_seq_spec(rng, late_mask=True) for _ in range(ctx.n(10, 100))]   # first global pulse at ti > 0
+    specs += [gen_precision_spec(rng) for _ in range(ctx.n(25, 250))]             # generic float64 data
     init_ok, init_detail = True, ""
     for s in specs:
         try:
@@ -533,6 +598,10 @@ def run(ctx):
     bspecs = [gen_seq_spec(rng, small=True) for _ in range(ctx.n(2, 12))]
     bspecs[0]["targets"] = bspecs[0]["targets"] or [0]
     bspecs.append(dict(gen_seq_spec(rng, small=True, late_mask=True), local_first=False))
+    # SLM end off the time grid, in the FIRST half of a step k >= 1 (dt = 10, mask ends at 12 / 22 / 33)
+    for first in ([12, 33] if not ctx.thorough() else [12, 22, 33, 41, 52]):
+        bspecs.append({"n": rng.choice([2, 3]), "spacing": 6.0, "xy": False, "targets": [0], "pulses": [first, 20],
+                       "delay": 0, "local_first": False, "custom": rng.random() < 0.5, "cutoff": 0.0, "dt": 10})
     q_ok, q_detail = True, ""
     for s in bspecs:
         try:
@@ -569,9 +638,11 @@ def run(ctx):
                          "comparisons and zeroing are exact in binary64: integer/dyadic data make the float pipeline equal "
                          "to the integer model",
                          "pulser's Sequence._slm_mask_time / _slm_mask_targets / Register.find_indices as the SLM schedule"]
-    ctx.assumptions += ["the matrix the register yields (C6/r^6, C3/r^3) is pulser's; only its symmetry/zero diagonal is "
-                        "checked, not its values",
+    ctx.assumptions += ["the matrix the register yields (C6/r^6, C3/r^3) is pulser's (torch.cdist, accurate to ~1e-7 only): the "
+                        "emulator side is compared bit for bit with pulser's float64 tensor, and with C6/r^6 at 1e-5",
                         "'inputs never mutated' is validated on the real tensors (equality + distinct storage), not proved",
+                        "backend oracle 'a step starting before slm_end uses the masked matrix' assumes slm_end lies after the "
+                        "midpoint of the first step (emu-mps queries step 0 at its midpoint)",
                         "query-time theorem: times are abstract ordered numbers; the backends' float midpoint "
                         "0.5*(a+b) is compared exactly with the recorded times"]
 
